@@ -1322,9 +1322,28 @@ fn big_shrink(rng: &mut Rng, fam: &str, emit: Emit) {
     }
 }
 
+/// growing a heap vector that is already longer than 65 536 bits by more than that in one operation (growth-policy branches)
+fn big_grow(rng: &mut Rng, emit: Emit) {
+    for ty in [ty_of("D"), ty_of("A")] {
+        let (lv, lx) = (66_000 + rng.below(100), 67_000 + rng.below(100));
+        let v = long_vec(rng, &ty, lv);
+        let x = long_vec(rng, &ty_of("D"), lx);
+        let len = tok_len(&v);
+        emit(line("append", &[&v, &x]));
+        emit(line("prepend", &[&v, &x]));
+        emit(line("insert", &[&v, &s(len / 3), &x]));
+        emit(line("resize", &[&v, &s(len + 70_001), "1"]));
+        emit(line("sign_extend", &[&v, &s(len + 66_000)]));
+        emit(line("reserve", &[&v, &s(70_000)]));
+    }
+}
+
 fn long_cases(rng: &mut Rng, fam: &str, emit: Emit) {
     if matches!(fam, "C03" | "C07" | "C08" | "C18") {
         big_shrink(rng, fam, emit);
+    }
+    if matches!(fam, "C03" | "C07" | "C18") {
+        big_grow(rng, emit);
     }
     for ty in [ty_of("D"), ty_of("A")] {
         for &len in LONG_LENS {
@@ -1355,7 +1374,7 @@ fn long_cases(rng: &mut Rng, fam: &str, emit: Emit) {
                     emit(line("cmpall", &[&v, &w]));
                     emit(line("cmpall", &[&v, &v]));
                 }
-                "C06" => { for k in [1usize, 64, len / 2, len - 1, len - 64] { emit(line("rotl", &[&v, &s(k)])); emit(line("rotr", &[&v, &s(k)])); } }
+                "C06" => { for k in [1usize, 64, len / 2, len - 1, len - 64, (len - 1).min(1000), (len - 1).min(1024), (len - 1).min(961), (len - 1).min(4095), len.saturating_sub(1000), len.saturating_sub(1023)] { emit(line("rotl", &[&v, &s(k)])); emit(line("rotr", &[&v, &s(k)])); } }
                 "C05" => { emit(line("shl_in", &[&v, "1"])); emit(line("shr_in", &[&v, "1"])); }
                 "C07" | "C03" | "C18" => {
                     let xl = LONG_LENS[rng.below(3)];
